@@ -320,6 +320,9 @@ func execC03(t *testing.T, c *Case) (v *Verdict) {
 			if vs.Kind == "coll" && vs.Spare > 0 {
 				v.Stats.probe("spare-capacity-var")
 			}
+			if vs.Kind == "coll" && len(vs.Items) >= 256 {
+				v.Stats.probe("big-collection-var")
+			}
 			if vs.Kind == "sub" || vs.Kind == "res" || vs.Kind == "node" {
 				v.Stats.probe("alias-config")
 			}
